@@ -164,6 +164,21 @@ theorem all_mem_unit_identical_axes (J : ℝ → ℝ → Cx ℝ) (n : ℕ) (ax :
   simp only [R, hG, sixEq]
   exact h
 
+/-- the by-name views of a two-source result (`HashMap::from(result)`, the serde map of the struct) file every
+channel under its own name, carry nothing else, and both ways back (`HomTwoSourceResult::from(map)`, serde
+`Deserialize`) return the result; so the identities and bounds above hold verbatim for the values addressed as
+`"ss"`, `"ii"`, `"si"` -/
+theorem named_view_faithful {β : Type} (r : TwoRes β) (d : β) :
+    (r.toNamed.lookup "ss" = some r.ss ∧ r.toNamed.lookup "ii" = some r.ii ∧ r.toNamed.lookup "si" = some r.si) ∧
+      r.toNamed.length = 3 ∧ TwoRes.ofNamed d r.toNamed = r ∧ TwoRes.ofNamedStrict r.toNamed = .ok r := by
+  refine ⟨⟨?_, ?_, ?_⟩, rfl, ?_, ?_⟩ <;>
+    simp [TwoRes.toNamed, TwoRes.ofNamed, TwoRes.ofNamedStrict, List.lookup]
+
+/-- a map that lacks a channel gives the default there (`unwrap_or(T::default())`), and fails strictly -/
+example : TwoRes.ofNamed (0 : ℝ) [("si", 3), ("ss", 1)] = ⟨1, 0, 3⟩ ∧
+    TwoRes.ofNamedStrict [("si", (3 : ℝ)), ("ss", 1)] = .err "missing field `ii`" := by
+  constructor <;> simp [TwoRes.ofNamed, TwoRes.ofNamedStrict, List.lookup]
+
 /-! ### non-vacuity -/
 
 /-- a concrete 2×2 spectrum satisfying the hypotheses of `ss_trace` / `ss_ii_mem_unit` -/
